@@ -176,7 +176,7 @@ LRU = {
     "scheme": [cp(x) for x in ["http://", "https://", ""]],
     "userinfo": [cp(x) for x in ["", "user@", "user:mdp@", "U-1:p%40w@"]],
     "host": [cp(x) for x in ["lemonde.fr", "www.lemonde.fr", "theguardian.co.uk", "Blog.Example.COM", "192.168.0.1", "[::1]", "localhost",
-                              "a.b.example.org"]],
+                              "a.b.example.org", "co.uk", "[2001:db8::AB]"]],      # a bare public suffix; an IPv6 literal with hex letters
     "port": [cp(x) for x in ["", ":8080", ":80"]],
     "path": [cp(x) for x in ["", "/", "/a", "/a/", "/a/b.html", "//a/b", "/a//b/", "/a:b/c@d", "/A/B"]],
     "query": [cp(x) for x in ["", "?", "?q=1", "?a=b:c@d&e=f", "?x"]],
